@@ -1,0 +1,13 @@
+//go:build verif
+
+package messages
+
+import "time"
+
+// VerifSetTickChan replaces the retransmission clock of the messenger with a
+// channel owned by the verification harness. It must be called before
+// SendMessage starts the retransmission goroutine. (The wall-clock ticker is
+// a by-value copy in this struct and must not be stopped through it.)
+func (s *RedundantMessenger) VerifSetTickChan(c <-chan time.Time) {
+	s.ticker.C = c
+}
